@@ -189,6 +189,19 @@ Theorem C03_metadynamics_resumes :
 Proof. exact meta_resumes_uninterrupted. Qed.
 Print Assumptions C03_metadynamics_resumes.
 
+(* A job stopped and resumed any number of times (every job a fresh instance that loads the file of its predecessor,
+   executes the predecessor's last step again, its own steps, and writes its state): the file written by the last job
+   is the file the uninterrupted run writes at that step.  Generic for objects whose files are compared by equality;
+   restraints and ABF on every carrier, the module's step counters. *)
+Theorem C03_resume_chain :
+  (forall (Cfg St In Out Saved : Type) (M : machine Cfg St In Out Saved) (Ok : Cfg -> Prop) (OutEq0 OutEq : Out -> Out -> Prop),
+     resumes_like_uninterrupted M Ok OutEq0 OutEq eq -> resumes_repeatedly M Ok) /\
+  (forall (T : Type) (O : NumOps T), resumes_repeatedly (restraint_machine O) r_ok) /\
+  (forall (T : Type) (O : NumOps T), resumes_repeatedly (abf_machine O) (@abf_ok T)) /\
+  resumes_repeatedly module_machine (fun _ => True).
+Proof. exact resume_chain_objects. Qed.
+Print Assumptions C03_resume_chain.
+
 (* Both state formats carry the same fields.  A state is a list of fields (keyword, values); the text format
    writes `keyword values newline`, the binary format `keyword count values`; decoding what either encoder wrote
    returns the field list, for every field list; the restraint's six optional keywords are recovered from it; hence a
